@@ -78,6 +78,16 @@ def required : ServerOp → Need
   | .authorizer_get_login_url | .authorizer_login_session_cache_size =>
     .free
 
+/-- Permissions an operation needs IN ADDITION to `required` when it is reached through the versioned API: every
+operation of the publication server is for its administrators only (`pubd::dispatch` demands `pub-admin` before it looks
+at the rest of the path) - a role with `pub-list` alone (the built-in read-only and read-write roles) is refused the
+publisher list and the list of stale publishers. -/
+def alsoRequired : ServerOp → List Permission
+  | .delete_matching_files | .repository_init | .repository_clear | .repository_session_reset
+  | .publishers | .repo_stats | .add_publisher | .get_publisher | .repository_response | .remove_publisher =>
+    [.PubAdmin]
+  | _ => []
+
 /-- The families of endpoints the property text names. -/
 inductive Area where
   | api | protocol | repository | taDownload | health | metrics | stats | login | ui | testbed
